@@ -44,7 +44,8 @@ def attr_value(typ):
 
 @st.composite
 def raw_case(draw):
-    kind = draw(st.sampled_from(["points", "polyline", "surface", "surface", "anyfaces", "tets", "tets", "hexes", "mixed_cells", "cell_soup"]))
+    kind = draw(st.sampled_from(["points", "polyline", "surface", "surface", "anyfaces", "tets", "tets", "hexes", "mixed_cells", "cell_soup",
+                                 "degenerate_faces"]))
     V, F, C = [], [], []
     manifold = False
     if kind == "points":
@@ -58,6 +59,21 @@ def raw_case(draw):
         n = draw(st.integers(3, 9))
         V = [[float(i), float(i * i % 4), float(i % 2)] for i in range(n)]
         F = draw(st.lists(st.lists(st.integers(0, n - 1), min_size=3, max_size=min(7, n), unique=True), min_size=1, max_size=5))
+    elif kind == "degenerate_faces":
+        # faces with a repeated consecutive vertex - a triangle stored in a quad row (a,b,c,c), a collapsed triangle (a,a,b) - next
+        # to ordinary ones: such a side is a self-loop and is dropped like a declared self-loop
+        n = draw(st.integers(3, 8))
+        V = [[float(i), float(i * i % 4), float(i % 2)] for i in range(n)]
+        F = draw(st.lists(st.lists(st.integers(0, n - 1), min_size=3, max_size=min(5, n), unique=True), min_size=1, max_size=4))
+        out = []
+        for f in F:
+            how = draw(st.sampled_from(["pad-last", "pad-first", "double-inside", "collapse", "keep"]))
+            if how == "pad-last": f = f + [f[-1]]
+            elif how == "pad-first": f = [f[0]] + f
+            elif how == "double-inside": f = f[:1] + [f[1], f[1]] + f[2:]
+            elif how == "collapse": f = [f[0], f[0], f[1]]
+            out.append(f)
+        F = out
     elif kind == "tets":
         t = draw(GT.tets(max_cells=16))
         V, C, manifold = t["V"], t["C"], True
@@ -177,6 +193,8 @@ def normal_form(case):
         for f in faces:
             for i in range(len(f)):
                 e = key(f[i], f[(i + 1) % len(f)])
+                if e[0] == e[1]:
+                    continue        # a repeated consecutive vertex: that side is a self-loop, dropped
                 if e not in seen:
                     seen.add(e); extra.append(e)
     dim = 3 if C else 2 if faces else 1 if declared else 0   # class = highest-dimensional element present after normalisation
